@@ -201,9 +201,35 @@ class TypeGen:
         b = r.choice([x, y, ["Never"], ["AnyOf", [x, ["Null"]]]])
         return (a, b, "list-intersection") if r.random() < 0.7 else (b, a, "list-intersection")
 
+    def literal_cover_pair(self, names):
+        """a wide primitive at one position against a union of three or more alternatives whose literal sets at that position
+        overlap, the widest last (successive subtraction of literal sets: (number \\ {1}) \\ {2} ...):
+        [number] vs [1] | [2] | [1|2|3]   (separating value: [4])"""
+        r = self.r
+        kind = r.choice(["n", "n", "s"])
+        wide = ["Number"] if kind == "n" else ["String"]
+        lit = (lambda k: lit_n(k)) if kind == "n" else (lambda k: lit_s("abcdef"[k]))
+        k = r.randrange(2, 5)
+        small = [[i] if r.random() < 0.7 else sorted(r.sample(range(k), min(k, 2))) for i in range(k)]
+        cover = sorted(set(x for sset in small for x in sset) | ({k} if r.random() < 0.7 else set()))
+        alts = small + [cover]
+        if r.random() < 0.25: r.shuffle(alts)
+        def lits(sset): return lit(sset[0]) if len(sset) == 1 else ["AnyOf", [lit(x) for x in sset]]
+        shape = r.choice(["tuple", "tuple2", "tuple-rest", "object", "nested"])
+        other = r.choice([["String"], ["Boolean"], ["Null"]])
+        def wrap(x):
+            if shape == "tuple": return ["Tuple", [x], None]
+            if shape == "tuple2": return ["Tuple", [other, x], None]
+            if shape == "tuple-rest": return ["Tuple", [x], other]
+            if shape == "object": return ["Object", [["a", [True, x]], ["b", [True, other]]], None]
+            return ["Object", [["t", [True, ["Tuple", [x], None]]]], None]
+        a = wrap(wide if r.random() < 0.8 else ["AnyOf", [wide, ["Null"]]])
+        return a, ["AnyOf", [wrap(lits(sset)) for sset in alts]], "literal-cover"
+
     def pair(self, names):
         r = self.r
         if r.random() < 0.12: return self.split_pair(names)
+        if r.random() < 0.06: return self.literal_cover_pair(names)
         if r.random() < 0.05: return self.list_intersection_pair(names)
         if r.random() < 0.06: return self.tail_escape_pair(names)
         if r.random() < 0.06: return self.length_gap_pair(names)
